@@ -788,7 +788,10 @@ def execute(history, opts=None):
                 if snapshot(o) != snapshot(d):
                     ctx.vio(step, "K4", "snapshot/%s" % tname(o), "deepcopy", "copy differs structurally", {"of": op["i"]})
                 eq = call(lambda a, b: a == b, d, o)
-                if hasattr(type(o), "__eq__") and type(o).__eq__ is not object.__eq__ and eq is not True:
+                # an object an internal edit has made degenerate may not even equal itself
+                # (HalfLine.__eq__ normalises a zero vector): only objects that do are asserted
+                self_eq = call(lambda a: a == a, o)
+                if hasattr(type(o), "__eq__") and type(o).__eq__ is not object.__eq__ and self_eq is True and eq is not True:
                     ctx.vio(step, "K4", "eq/%s" % tname(o), "deepcopy", "copy == original is %s" % disc(eq), {"of": op["i"]})
                 shared = set(mutable_ids(o)) & set(mutable_ids(d))
                 if shared:
